@@ -36,6 +36,7 @@ macro_rules! dispatch {
             "C07" => driver::$f(scenarios::c07::C07, $($arg),*),
             "C08" => driver::$f(scenarios::c08::C08, $($arg),*),
             "C16" => driver::$f(scenarios::c16::C16, $($arg),*),
+            "C14" => driver::$f(scenarios::c14::C14, $($arg),*),
             other => {
                 eprintln!("HARNESS-ERROR unknown property {other}");
                 2
